@@ -14,7 +14,6 @@ TRUSTED = ["the lists are those of the implementation; the Saenger table and the
 
 def check_lists(s3, raw, model_number):
     from . import chem as T
-    from rnapolis.annotator import detect_bph_br_classification
     from rnapolis.common import LeontisWesthof, Saenger
     bp, bph, br, st = raw
     R = s3.residues
@@ -60,6 +59,7 @@ def check_lists(s3, raw, model_number):
             cls = int(getattr(x, attr).value[0])
             per_pair.setdefault((id(d), id(a)), []).append(cls)
             implied = set()
+            undecided = False
             for dn in T.BASE_DONORS.get(d.one_letter_name, []):
                 da = d.find_atom(dn)
                 if da is None:
@@ -70,11 +70,13 @@ def check_lists(s3, raw, model_number):
                         continue
                     dist = float(np.linalg.norm(da.coordinates - aa.coordinates))
                     if dist <= 4.0 + 1e-6:
-                        c = detect_bph_br_classification(d, da, aa)
+                        c, und = T.bph_class(d, da, aa)
+                        if und:
+                            undecided = True
                         if c is not None:
                             implied.add(c)
             ok = cls in implied or (cls == 4 and {3, 5} <= implied) or (cls == 8 and {7, 9} <= implied)
-            if not ok:
+            if not ok and not undecided:
                 return f"{name} {d.full_name}->{a.full_name} class {cls} is not implied by any donor atom within 4.0 A of a {name.split('-')[1]} oxygen (implied: {sorted(implied)})"
         if any(len(v) > 1 for v in per_pair.values()):
             return f"a residue pair carries more than one {name} class"
